@@ -4,6 +4,7 @@ import (
 	"fmt"
 	"go/token"
 	"go/types"
+	"sort"
 	"strings"
 
 	"golang.org/x/tools/go/ssa"
@@ -580,4 +581,454 @@ func ruleNoNilMapWrite(c *core.Ctx, rule string, rels ...string) {
 		}
 	}
 	c.Pass(rule, "map-writes", token.NoPos, fmt.Sprintf("%d map writes examined, %d on a possibly nil map", n, bad))
+}
+
+// reentrantThroughCalls: while a function holds a mutex (class = struct type +
+// field), nothing it calls — statically, through an interface or through a
+// registered callback (call graph: CHA, `go` edges excluded) — comes back to
+// an acquisition of a mutex of that class.  The registration of a connection
+// handler whose closer unregisters the subscriber is the case in point:
+// RemoveHandler runs the closer, the closer takes the lock its caller holds.
+// Classes are not objects: a path that provably concerns another object of
+// the class (none on the tree) would need an exception with its reason.
+func reentrantThroughCalls(c *core.Ctx, lc *core.LockCache, rule string, fns []*ssa.Function, skip map[core.LockClass]string) int {
+	cg := c.VTA() // function values by type flow: CHA resolves a func() field to every func() of the program
+	acquires := map[*ssa.Function]map[core.LockClass]bool{}
+	for _, fn := range c.RepoFuncs() {
+		if c.IsTestFile(fn) {
+			continue
+		}
+		for _, call := range core.Calls(fn) {
+			if _, isDefer := call.(*ssa.Defer); isDefer {
+				continue
+			}
+			if op, ok := core.LockOpOf(call); ok && (op.Kind == core.OpLock || op.Kind == core.OpRLock) {
+				if acquires[fn] == nil {
+					acquires[fn] = map[core.LockClass]bool{}
+				}
+				acquires[fn][op.Class] = true
+			}
+		}
+	}
+	n := 0
+	for _, fn := range fns {
+		lf := lc.Get(fn)
+		if lf.Ops == 0 {
+			continue
+		}
+		node := cg.Nodes[fn]
+		if node == nil {
+			continue
+		}
+		for _, e := range node.Out {
+			site, plain := e.Site.(*ssa.Call)
+			if !plain || e.Callee.Func == nil {
+				continue
+			}
+			if _, isOp := core.LockOpOf(site); isOp {
+				continue
+			}
+			held := map[core.LockClass]bool{}
+			for k := range lf.MayHeld(site) {
+				if skip[k] == "" {
+					held[k] = true
+				}
+			}
+			if len(held) == 0 {
+				continue
+			}
+			n++
+			// BFS from the callee
+			type item struct {
+				fn   *ssa.Function
+				path []string
+			}
+			start := e.Callee.Func
+			if start.Pkg == nil || !strings.HasPrefix(start.Pkg.Pkg.Path(), core.Module) || strings.Contains(start.Pkg.Pkg.Path(), "/examples/") || strings.Contains(start.Pkg.Pkg.Path(), "/cmd/") {
+				continue
+			}
+			seen := map[*ssa.Function]bool{start: true}
+			q := []item{{start, []string{core.FuncKey(start)}}}
+			for len(q) > 0 {
+				it := q[0]
+				q = q[1:]
+				hit := false
+				for k := range held {
+					if acquires[it.fn][k] {
+						c.Fail(rule, fmt.Sprintf("reentrant-through@%s->%s/%s", core.FuncKey(fn), core.FuncKey(it.fn), k.Field), site.Pos(),
+							fmt.Sprintf("%s is held across this call, which can come back to an acquisition of it: %s (a plain mutex, or a read lock with a writer waiting, dead-locks the goroutine — the object's mailbox or the connection's reader — for good)", k, strings.Join(it.path, " -> ")))
+						hit = true
+					}
+				}
+				if hit || len(it.path) > 8 {
+					continue
+				}
+				nd := cg.Nodes[it.fn]
+				if nd == nil {
+					continue
+				}
+				var outs []*ssa.Function
+				for _, e2 := range nd.Out {
+					if _, isGo := e2.Site.(*ssa.Go); isGo {
+						continue
+					}
+					g := e2.Callee.Func
+					if g == nil || g.Pkg == nil || !strings.HasPrefix(g.Pkg.Pkg.Path(), core.Module) || seen[g] {
+						continue
+					}
+					if c.IsTestFile(g) || strings.Contains(g.Pkg.Pkg.Path(), "/examples/") || strings.Contains(g.Pkg.Pkg.Path(), "/cmd/") {
+						continue
+					}
+					seen[g] = true
+					outs = append(outs, g)
+				}
+				sort.Slice(outs, func(i, j int) bool { return core.FuncKey(outs[i]) < core.FuncKey(outs[j]) })
+				for _, g := range outs {
+					q = append(q, item{g, append(append([]string{}, it.path...), core.FuncKey(g))})
+				}
+			}
+		}
+	}
+	return n
+}
+
+// ruleNoStaleElementPointer: a pointer to an element of a table held in a
+// struct field (p := &t.list[i]) is not read through after an element of that
+// table has been overwritten in the same function (t.list[i] = t.list[last]):
+// what it designates is then another entry.  Removing a subscriber and then
+// reading "its" handler id through such a pointer drops the handler of the
+// entry that was swapped in.  Copies taken before the store (for i, e := range
+// t.list) are not concerned.
+func ruleNoStaleElementPointer(c *core.Ctx, rule string, fns []*ssa.Function) int {
+	n := 0
+	for _, fn := range fns {
+		// element stores per table field
+		type estore struct {
+			in  *ssa.Store
+			fld *types.Var
+		}
+		var stores []estore
+		fieldOfSlice := func(sl ssa.Value) *types.Var {
+			p := core.AccessPath(sl)
+			if len(p.Fields) == 0 {
+				return nil
+			}
+			return p.Fields[len(p.Fields)-1]
+		}
+		for _, b := range fn.Blocks {
+			for _, in := range b.Instrs {
+				st, ok := in.(*ssa.Store)
+				if !ok {
+					continue
+				}
+				ia, ok := st.Addr.(*ssa.IndexAddr)
+				if !ok {
+					continue
+				}
+				if _, isSlice := ia.X.Type().Underlying().(*types.Slice); !isSlice {
+					continue
+				}
+				if f := fieldOfSlice(ia.X); f != nil {
+					stores = append(stores, estore{st, f})
+				}
+			}
+		}
+		if len(stores) == 0 {
+			continue
+		}
+		for _, b := range fn.Blocks {
+			for _, in := range b.Instrs {
+				ia, ok := in.(*ssa.IndexAddr)
+				if !ok {
+					continue
+				}
+				if _, isSlice := ia.X.Type().Underlying().(*types.Slice); !isSlice {
+					continue
+				}
+				f := fieldOfSlice(ia.X)
+				if f == nil {
+					continue
+				}
+				// reads through the pointer: loads of it, or of a field address derived from it
+				var reads []ssa.Instruction
+				var walk func(v ssa.Value, depth int)
+				walk = func(v ssa.Value, depth int) {
+					if depth > 3 {
+						return
+					}
+					for _, r := range core.Referrers(v) {
+						switch x := r.(type) {
+						case *ssa.UnOp:
+							if x.Op == token.MUL {
+								reads = append(reads, x)
+							}
+						case *ssa.FieldAddr:
+							walk(x, depth+1)
+						}
+					}
+				}
+				walk(ia, 0)
+				if len(reads) == 0 {
+					continue
+				}
+				for _, es := range stores {
+					if es.fld != f || es.in.Addr == ssa.Value(ia) {
+						continue
+					}
+					// the store happens after the pointer was taken, and a read follows the store
+					afterPtr := core.ReachFrom(core.After(ia), nil, nil)
+					if !afterPtr.Has(es.in) {
+						continue
+					}
+					afterStore := core.ReachFrom(core.After(es.in), func(x ssa.Instruction) bool { return x == ssa.Instruction(ia) }, nil)
+					for _, rd := range reads {
+						if afterStore.Has(rd) {
+							n++
+							c.Fail(rule, fmt.Sprintf("stale-element-pointer@%s/%s#%d", core.FuncKey(fn), f.Name(), n), rd.Pos(),
+								fmt.Sprintf("an entry of %s is read through a pointer taken before another entry was written over it (%s): the pointer now designates the entry that was moved there, so the wrong subscriber's handler, id or channel is used", f.Name(), c.Pos(es.in.Pos())))
+							break
+						}
+					}
+				}
+			}
+		}
+	}
+	return n
+}
+
+// ruleNoLoopVarAddressKept: under the loop semantics this module compiles with
+// (go.mod: a `go` version before 1.22 gives one variable for all iterations),
+// the address of a loop variable is not stored into a map, a slice, a field or
+// a goroutine's closure inside the loop: every entry then designates the one
+// variable, i.e. the element visited last.  Decided on SSA, where such a
+// variable is one heap cell allocated outside the loop and stored into on
+// every iteration — so the rule is silent by construction once the module
+// moves to per-iteration variables.
+func ruleNoLoopVarAddressKept(c *core.Ctx, rule string, rels ...string) {
+	n, bad := 0, 0
+	for _, rel := range withExamples(rels) {
+		for _, fn := range srcFuncsOfPkg(c, rel) {
+			inLoop := map[*ssa.BasicBlock]bool{}
+			for _, b := range fn.Blocks {
+				// b is in a cycle if it is reachable from one of its successors
+				seen := map[*ssa.BasicBlock]bool{}
+				var q []*ssa.BasicBlock
+				q = append(q, b.Succs...)
+				for len(q) > 0 {
+					x := q[0]
+					q = q[1:]
+					if seen[x] {
+						continue
+					}
+					seen[x] = true
+					if x == b {
+						inLoop[b] = true
+						break
+					}
+					q = append(q, x.Succs...)
+				}
+			}
+			for _, b := range fn.Blocks {
+				for _, in := range b.Instrs {
+					al, ok := in.(*ssa.Alloc)
+					if !ok || !al.Heap || inLoop[al.Block()] {
+						continue
+					}
+					storedInLoop := false
+					var kept ssa.Instruction
+					for _, r := range core.Referrers(al) {
+						if !inLoop[r.Block()] {
+							continue
+						}
+						switch x := r.(type) {
+						case *ssa.Store:
+							if x.Addr == ssa.Value(al) {
+								storedInLoop = true
+							} else if x.Val == ssa.Value(al) {
+								kept = x
+							}
+						case *ssa.MapUpdate:
+							if x.Value == ssa.Value(al) || x.Key == ssa.Value(al) {
+								kept = x
+							}
+						case *ssa.MakeInterface:
+							// boxed, then stored
+							for _, r2 := range core.Referrers(x) {
+								switch y := r2.(type) {
+								case *ssa.Store:
+									kept = y
+								case *ssa.MapUpdate:
+									kept = y
+								}
+							}
+						case *ssa.MakeClosure:
+							for _, r2 := range core.Referrers(x) {
+								if _, isGo := r2.(*ssa.Go); isGo {
+									kept = r2
+								}
+							}
+						}
+					}
+					if !storedInLoop {
+						continue
+					}
+					n++
+					if kept != nil {
+						bad++
+						c.Fail(rule, fmt.Sprintf("loop-variable-address@%s#%d", core.FuncKey(fn), bad), kept.Pos(),
+							"the address of a variable that is shared by all iterations of the loop (this module's go version gives one variable per loop) is kept beyond the iteration: every entry stored designates the same variable, which ends up holding the element visited last — with two or more elements all entries print as the last one")
+					}
+				}
+			}
+		}
+	}
+	c.Pass(rule, "loop-variables", token.NoPos, fmt.Sprintf("%d loop-carried heap variables examined, %d whose address is kept beyond the iteration", n, bad))
+}
+
+// ruleParserKeepsNoState: the entry points of a parser package (and the
+// functions of the package they reach) use no package-level variable that is
+// modified after initialisation, nor one initialised from such a variable: a
+// context, scope or cache shared between two parses makes the result of the
+// second depend on the first (a struct name resolved to the definition of an
+// earlier, unrelated input).  Read-only tables are fine.
+func ruleParserKeepsNoState(c *core.Ctx, rule, rel string, entries ...string) {
+	sp := c.SSAPkg(rel)
+	if sp == nil {
+		c.Undecided(rule, rel, token.NoPos, "package not loaded")
+		return
+	}
+	fns := srcFuncsOfPkg(c, rel)
+	isInit := func(fn *ssa.Function) bool {
+		for fn.Parent() != nil {
+			fn = fn.Parent()
+		}
+		return fn.Name() == "init" || strings.HasPrefix(fn.Name(), "init#")
+	}
+	globalRoot := func(v ssa.Value) *ssa.Global {
+		for depth := 0; depth < 8; depth++ {
+			switch x := v.(type) {
+			case *ssa.Global:
+				if x.Pkg == sp {
+					return x
+				}
+				return nil
+			case *ssa.FieldAddr:
+				v = x.X
+			case *ssa.IndexAddr:
+				v = x.X
+			case *ssa.UnOp:
+				v = x.X
+			case *ssa.Field:
+				v = x.X
+			default:
+				return nil
+			}
+		}
+		return nil
+	}
+	mutable := map[*ssa.Global]token.Pos{}
+	initFrom := map[*ssa.Global][]*ssa.Global{} // g initialised by an expression using these globals
+	var initFns []*ssa.Function
+	if f := sp.Func("init"); f != nil {
+		initFns = append(initFns, f)
+	}
+	for _, fn := range append(fns, initFns...) {
+		for _, b := range fn.Blocks {
+			for _, in := range b.Instrs {
+				switch x := in.(type) {
+				case *ssa.Store:
+					g := globalRoot(x.Addr)
+					if g == nil {
+						continue
+					}
+					if !isInit(fn) {
+						mutable[g] = x.Pos()
+					} else if direct, ok := x.Addr.(*ssa.Global); ok && direct == g {
+						// g = <expr>: which globals does the expression use?
+						seen := map[ssa.Value]bool{}
+						var walk func(v ssa.Value, depth int)
+						walk = func(v ssa.Value, depth int) {
+							if v == nil || seen[v] || depth > 6 {
+								return
+							}
+							seen[v] = true
+							if g2 := globalRoot(v); g2 != nil && g2 != g {
+								initFrom[g] = append(initFrom[g], g2)
+							}
+							if vi, ok := v.(ssa.Instruction); ok {
+								for _, op := range vi.Operands(nil) {
+									walk(*op, depth+1)
+								}
+							}
+						}
+						walk(x.Val, 0)
+					}
+				case *ssa.MapUpdate:
+					if g := globalRoot(x.Map); g != nil && !isInit(fn) {
+						mutable[g] = x.Pos()
+					}
+				}
+			}
+		}
+	}
+	for changed := true; changed; {
+		changed = false
+		for g, from := range initFrom {
+			if _, ok := mutable[g]; ok {
+				continue
+			}
+			for _, g2 := range from {
+				if p, ok := mutable[g2]; ok {
+					mutable[g] = p
+					changed = true
+				}
+			}
+		}
+	}
+	// the unit of the entry points
+	var unit []*ssa.Function
+	seen := map[*ssa.Function]bool{}
+	for _, name := range entries {
+		if f := sp.Func(name); f != nil {
+			unit = append(unit, f)
+			seen[f] = true
+		} else {
+			c.Undecided(rule, rel+"."+name, token.NoPos, "anchor not found")
+		}
+	}
+	for i := 0; i < len(unit); i++ {
+		for _, f := range core.AnonFuncs(unit[i]) {
+			for _, call := range core.Calls(f) {
+				g := core.StaticCallee(call)
+				if g == nil || seen[g] || g.Pkg != sp || len(g.Blocks) == 0 {
+					continue
+				}
+				seen[g] = true
+				unit = append(unit, g)
+			}
+		}
+	}
+	bad := 0
+	for _, fn := range unit {
+		for _, f := range core.AnonFuncs(fn) {
+			for _, b := range f.Blocks {
+				for _, in := range b.Instrs {
+					for _, op := range in.Operands(nil) {
+						g, ok := (*op).(*ssa.Global)
+						if !ok || g.Pkg != sp {
+							continue
+						}
+						if p, isMut := mutable[g]; isMut {
+							bad++
+							c.Fail(rule, fmt.Sprintf("%s.%s/shared-state:%s", rel, fn.Name(), g.Name()), in.Pos(),
+								fmt.Sprintf("the parser uses the package-level variable %s, which is modified after initialisation (%s) or was built from one that is: two parses share it, so what the first one declared (a struct of the same name, a scope) leaks into the result of the second", g.Name(), c.Pos(p)))
+						}
+					}
+				}
+			}
+		}
+	}
+	if bad == 0 {
+		c.Pass(rule, rel+"/stateless", token.NoPos, fmt.Sprintf("%d functions reached from %s use no package-level variable that changes after initialisation (%d such variables in the package)", len(unit), strings.Join(entries, ", "), len(mutable)))
+	}
 }
